@@ -51,6 +51,25 @@ def parseKV (pfx : String) (ws : List String) : String :=
   | some w => (w.drop pfx.length).toString
   | none => ""
 
+def parseOp (ws : List String) : Option Op :=
+  match ws with
+  | ["restart", m] => some (Op.restart (m == "insert"))
+  | ["kchain", n, rs] => ((splitList "|" rs).mapM parseK).map (Op.kchain n)
+  | ["kdelchain", n] => some (Op.kdelchain n)
+  | ["chain", n, f, _toks, rs] => ((splitList "|" rs).mapM parseD).map (fun rs => Op.chain n ⟨rs, f == "1"⟩)
+  | ["rmchain", n] => some (Op.rmchain n)
+  | ["ins", c, _toks, rs] => ((splitList "|" rs).mapM parseD).map (Op.ins c)
+  | ["app", c, _toks, rs] => ((splitList "|" rs).mapM parseD).map (Op.app c)
+  | ["invalidate"] => some Op.invalidate
+  | "apply" :: rest =>
+    let sf := (splitList "," (parseKV "s=" rest)).map (· == "1")
+    let rf := (splitList "," (parseKV "r=" rest)).map (· == "1")
+    let pre := match (parseKV "pre=" rest).splitOn "@" with
+      | [c, i] => i.toNat?.map (fun i => (c, i))
+      | _ => none
+    some (Op.apply sf rf pre)
+  | _ => none
+
 def step (w : W) (line : String) : W × String :=
   let ws := words line
   match ws with
@@ -58,37 +77,14 @@ def step (w : W) (line : String) : W × String :=
   | _ =>
   if w.dead then (w, "dead") else
   match ws with
-  | ["restart", m] => ({ w with t := T.new prefixes (m == "insert"), sleeps := 0 }, "ok")
-  | ["kchain", n, rs] =>
-    match (splitList "|" rs).mapM parseK with
-    | some rs => ({ w with K := w.K.set n rs }, "ok")
-    | none => (w, "bad-op")
-  | ["kdelchain", n] => ({ w with K := w.K.erase n }, "ok")
-  | ["chain", n, f, _toks, rs] =>
-    match (splitList "|" rs).mapM parseD with
-    | some rs => ({ w with t := w.t.updateChain n ⟨rs, f == "1"⟩ }, "ok")
-    | none => (w, "bad-op")
-  | ["rmchain", n] => ({ w with t := w.t.removeChain n }, "ok")
-  | ["ins", c, _toks, rs] =>
-    match (splitList "|" rs).mapM parseD with
-    | some rs => ({ w with t := w.t.setInserts c rs }, "ok")
-    | none => (w, "bad-op")
-  | ["app", c, _toks, rs] =>
-    match (splitList "|" rs).mapM parseD with
-    | some rs => ({ w with t := w.t.setAppends c rs }, "ok")
-    | none => (w, "bad-op")
-  | ["invalidate"] => ({ w with t := w.t.invalidate }, "ok")
   | ["state"] => (w, showState w)
-  | "apply" :: rest =>
-    let sf := (splitList "," (parseKV "s=" rest)).map (· == "1")
-    let rf := (splitList "," (parseKV "r=" rest)).map (· == "1")
-    let pre := match (parseKV "pre=" rest).splitOn "@" with
-      | [c, i] => i.toNat?.map (fun i => (c, i))
-      | _ => none
-    let w := { w with saveFails := sf, restoreFails := rf, pre := pre, trace := [] }
-    let (w, ok) := w.apply
-    if !ok then ({ w with dead := true }, "panic")
-    else ({ w with pre := none }, "ok T=" ++ " ".intercalate (w.trace.reverse.map esc) ++ " " ++ showState w)
-  | _ => (w, "bad-op")
+  | _ =>
+    match parseOp ws with
+    | none => (w, "bad-op")
+    | some op =>
+      match w.stepOp op with
+      | (w, none) => (w, "ok")
+      | (w, some false) => (w, "panic")
+      | (w, some true) => (w, "ok T=" ++ " ".intercalate (w.trace.reverse.map esc) ++ " " ++ showState w)
 
 def main : IO Unit := run step { t := T.new prefixes true, K := [] }
